@@ -162,13 +162,16 @@ func (srv *Srv) flush(req *SrvReq) {
 
 	r.Lock()
 	status := r.status
-	if (status & (reqWork | reqSaved)) == 0 {
+	/* a Tflush is never cancelled: it is always answered, and the flush of a
+	 * flush is answered after it */
+	cancel := (status&(reqWork|reqSaved)) == 0 && r.Tc.Type != Tflush
+	if cancel {
 		/* the request is not worked on yet */
 		r.status |= reqFlush
 	}
 	r.Unlock()
 
-	if (status & (reqWork | reqSaved)) == 0 {
+	if cancel {
 		r.Respond()
 	} else {
 		if op, ok := (srv.ops).(FlushOp); ok {
